@@ -112,6 +112,11 @@ def cases(tier, inst):
                 continue
             for k in BKINDS:
                 yield (("int",) + combo, k, True)
+    # LIST-valued inner collections (the user's own mutable lists): the concatenated value is a NEW list, evaluated twice,
+    # then once more through a second query over the same objects; the users' lists are what they were
+    for n in (1, 2, 3):
+        for combo in itertools.product([c for c in INT_INNER[:6] if isinstance(c, tuple)] + [2], repeat=n):
+            yield (("lst",) + combo, "lvalue", True)
     yield from object_cases(tier, inst)
 
 
@@ -246,8 +251,49 @@ def run_bound(case, inst):
     return res
 
 
+def run_list(case, inst):
+    combo, k, caching = case
+    inner = combo[1:]
+
+    def body():
+        wspec = (("P", "Item", tuple((("p", i + 1), ("items", ("list!",) + c if isinstance(c, tuple) else c))
+                                     for i, c in enumerate(inner))),)
+        world = build_world(wspec, inst)
+        before = [(o.items, list(o.items)) if isinstance(o.items, list) else (o.items, None) for o in world["P"]]
+        combined = [e for o in world["P"] for e in (o.items if isinstance(o.items, list) else [o.items])]
+        q = ("Q", "an", "entity", CC, (), (VX,))
+        out = []
+        try:
+            obj, b = Q.build(q, world, inst)
+            out.append([list(v) for v in obj.evaluate()])
+            out.append([list(v) for v in obj.evaluate()])
+            obj2, b2 = Q.build(q, world, inst)           # a second query over the same objects
+            out.append([list(v) for v in obj2.evaluate()])
+        except Exception as e:
+            return exc_obs(e), combined, None
+        changed = [i for i, (o, (ref, content)) in enumerate(zip(world["P"], before))
+                   if o.items is not ref or (content is not None and list(o.items) != content)]
+        return out, combined, changed
+
+    out, combined, changed = run_isolated(body, caching=caching)
+    res = {"ok": True, "transitions": 3, "nontrivial": len(combined) > 0,
+           "tags": ["kind=lvalue", f"parents={len(inner)}", "caching=on", "list_valued"], "outcome": f"lvalue:{len(combined)}"}
+    if is_exc(out):
+        res.update(ok=False, sig=f"lvalue:exc:{out[1]}", obs=out, exp=[combined])
+    else:
+        for name, o in zip(("eval1", "eval2", "second-query"), out):
+            if o != [combined]:
+                res.update(ok=False, sig=f"lvalue:{name}:" + ("rows" if len(o) != 1 else "content"), obs=repr(o), exp=repr([combined]))
+                return res
+        if changed:
+            res.update(ok=False, sig="lvalue:the-user's-list-was-changed", obs=f"items of parents {changed} changed", exp="unchanged")
+    return res
+
+
 def run_case(case, inst):
     combo, k, caching = case
+    if k == "lvalue":
+        return run_list(case, inst)
     if k in BKINDS:
         return run_bound(case, inst)
     q = query_of(case)
@@ -343,6 +389,11 @@ def run_case(case, inst):
 
 def describe(case, inst):
     combo, k, caching = case
+    if k == "lvalue":
+        return ("P = [" + ", ".join(f"Item(p={i + 1}, items={list(c) if isinstance(c, tuple) else c})" for i, c in enumerate(combo[1:])) + "]"
+                "   # LIST-valued inner collections\nwith symbolic_mode(): x = let(Item, P); q = an(entity(concatenate(x.items)))\n"
+                "v1 = list(q.evaluate()); v2 = list(q.evaluate()); v3 = list(<the same query written again>.evaluate())\n"
+                "# expected: three times [[all elements in order]]; the items lists of the objects are what they were")
     return (("enable_caching()" if caching else "disable_caching()") + "\n" + Q.up_world(wspec_of(combo), inst) + "\n"
             + Q.up_query(query_of(case), inst)
             + "\nresult = list(q.evaluate())   # expected: " +
